@@ -6,11 +6,12 @@ m = json.load(open(os.path.join(V, "MANIFEST.json")))
 props = [json.loads(l) for l in open(os.path.join(V, "properties.jsonl"))]
 na_path = os.path.join(V, "not_applicable.json")
 na = json.load(open(na_path)) if os.path.exists(na_path) else {}
+claimed = set(open(os.path.join(V, "claimed.txt")).read().split())  # ids whose checks are finished and reviewed
 checks, notapp, served = [], [], []
 for p in props:
     pid = p["id"]
     cp = os.path.join(V, "checks", pid, "check.json")
-    if os.path.exists(cp) and not json.load(open(cp)).get("unclaimed"):
+    if os.path.exists(cp) and pid in claimed:
         c = json.load(open(cp))
         mf = c.get("manifest", {})
         checks.append({
